@@ -215,7 +215,7 @@ func (m *Merged) C(name string) int64 { return m.Counters[name] }
 var buildMode = "plain"
 
 // memCeiling per worker process: far above what any case needs (< 1 GiB).
-const memCeiling = 5 << 30
+const memCeiling = 3 << 30
 
 // ---- worker ---------------------------------------------------------------
 
@@ -461,7 +461,7 @@ func runPass(def *CheckDef, tier string, seed uint64, exe, mode string, limit in
 		go func(w int) {
 			defer wg.Done()
 			startAfter := -1
-			for gen := 0; gen < 6; gen++ {
+			for gen := 0; gen < 10; gen++ {
 				errFile := filepath.Join(dir, fmt.Sprintf("w%d.g%d.stderr", w, gen))
 				ef, _ := os.Create(errFile)
 				cmd := exec.Command(exe, "worker", def.ID, "--tier", tier, "--seed", strconv.FormatUint(seed, 10),
@@ -506,7 +506,7 @@ func runPass(def *CheckDef, tier string, seed uint64, exe, mode string, limit in
 					fp := def.ID + "/worker-death"
 					if isOOM(err, tail) && def.MemoryIsViolation {
 						merged.Deaths = append(merged.Deaths, Violation{Prop: def.ID, Fingerprint: def.ID + "/memory-blowup", CaseIdx: last,
-							Detail: map[string]interface{}{"what": "the worker's heap passed the 5 GiB ceiling while running this case (a call that neither returns nor fails)",
+							Detail: map[string]interface{}{"what": "the worker's heap passed the 3 GiB ceiling while running this case (a call that neither returns nor fails)",
 								"note": note, "stderr_tail": truncate(tail, 1500), "build_mode": mode}})
 					} else if isOOM(err, tail) {
 						merged.Infra = append(merged.Infra, fmt.Sprintf("worker %d killed (memory) at case %d", w, last))
